@@ -99,7 +99,12 @@ class MemStream:
         return len(b)
 
     def seek(self, pos, whence=0):
+        if whence == 1:
+            pos += self.pos
+        elif whence == 2:
+            pos += len(self.items)
         self.pos = pos
+        return pos
 
     def tell(self):
         return self.pos
@@ -136,6 +141,37 @@ class MemStream:
             if len(line) == 0:
                 return
             yield line
+
+    def __next__(self):
+        line = self.readline()
+        if len(line) == 0:
+            raise StopIteration
+        return line
+
+    def readlines(self, hint=-1):
+        return list(self)
+
+    def writelines(self, lines):
+        for line in lines:
+            self.write(line)
+
+    def readable(self):
+        return True
+
+    def writable(self):
+        return True
+
+    def seekable(self):
+        return True
+
+    def flush(self):
+        pass
+
+    def truncate(self, size=None):
+        if size is None:
+            size = self.pos
+        del self.items[size:]
+        return size
 
     def close(self):
         pass
